@@ -36,8 +36,9 @@ pub fn run(a: &Args) {
     let work = format!("{}/tmp", a.out);
     for case in 0..a.n {
         let nfd = rng.below(8);
-        let kinds = ["file", "dir", "pipe", "socket", "eventfd"];
+        let kinds = ["file", "dir", "pipe", "socket", "eventfd", "odd"];   // odd: the link target is not valid UTF-8
         let mut lines: Vec<String> = (0..nfd).map(|_| format!("fd {}", rng.pick(&kinds))).collect();
+        if case % 4 == 0 { lines.push("fd odd".into()); }
         // synthetic linker chain: n entries; 0 well-formed, 1 cyclic, 2 r_debug cut by the end of its mapping
         let chain = if case % 2 == 1 { let kind = (case / 2) % 4; /* 3: well-formed, names at the very end of a mapping */ Some((if kind == 0 { rng.below(6) } else { rng.range(1, 5) }, kind)) } else { None };
         if let Some((n, kind)) = chain { lines.push(format!("chain {n} {kind}")); }
